@@ -160,15 +160,22 @@ func C05_Nested() {
 		verif.Assert(err == nil, "bind succeeds")
 		verif.Assert(got.Name == "n" && got.LocalPort == lp && got.Host == host && got.Extras.Tag == tag && sameFloat(got.Extras.MaxLatency, lat), "nested values reproduced")
 	case 1: // named nested struct type must match the block type; named child key type.name
+		// the child's name is any 1..3 bytes over {'.', 'a', '_'}: the key is cut
+		// at its first dot, whatever the name contains
+		nb := verif.Bytes("iname", 1+verif.Choice("inamelen", 3))
+		for _, c := range nb {
+			verif.Assume(c == '.' || c == 'a' || c == '_')
+		}
+		in := string(nb)
 		blk := bcl.Block{Type: "T3", Fields: map[string]any{
-			"a":        lp,
-			"inner.in": bcl.Block{Type: "inner", Name: "in", Fields: map[string]any{"x": x}},
+			"a":           lp,
+			"inner." + in: bcl.Block{Type: "inner", Name: in, Fields: map[string]any{"x": x}},
 		}}
 		var got T3
 		err := bcl.Bind(&got, bcl.StructBinding{Value: blk})
 		verif.Observe("err", err)
 		verif.Assert(err == nil, "bind succeeds")
-		verif.Assert(got.A == lp && got.Inner.X == x && got.Inner.Name == "in" && got.Name == "", "named child reproduced")
+		verif.Assert(got.A == lp && got.Inner.X == x && got.Inner.Name == in && got.Name == "", "named child reproduced")
 	default: // a tag shadows a name match: key "localport" must not match the tagged field
 		blk := bcl.Block{Type: "t2", Fields: map[string]any{"lp": lp}}
 		var got T2
@@ -288,5 +295,153 @@ func C05_UnmarshalNested() {
 	verif.Assert(got.Name == "top" && got.X == 10+int(d[0]-'0') && got.Host == "p", "parent fields reproduced")
 	verif.Assert(got.Inner7.Name == "in" && got.Inner7.X == 20+int(d[1]-'0') && got.Inner7.Host == "c", "child fields reproduced")
 	verif.Assert(got.After == 30+int(d[2]-'0'), "field after the child reproduced")
+	verif.Reach("checked")
+}
+
+type TKw struct {
+	Name   string
+	Print  int
+	Not    int
+	Or     int
+	And    int
+	Var    int
+	Nil    int
+	Def    int
+	Eval   int
+	Bind   int
+	True   int
+	False  int
+	Struct int
+	Slice  int
+}
+
+// C05_KeywordFields: struct fields named like the language's (lower-case)
+// keywords, written in the text with another letter case, are ordinary fields.
+func C05_KeywordFields() {
+	names := []string{"Print", "Not", "Or", "And", "Var", "Nil", "Def", "Eval", "Bind", "True", "False", "Struct", "Slice"}
+	i := verif.Choice("field", len(names))
+	var key string
+	switch verif.Choice("case", 3) {
+	case 0:
+		key = names[i]
+	case 1:
+		key = upper(names[i])
+	default:
+		key = lower(names[i][:1]) + upper(names[i][1:])
+	}
+	d := verif.Bytes("digit", 1)
+	verif.Assume(d[0] >= '0' && d[0] <= '9')
+	src := "def tkw \"n\" {\n " + key + " = 4" + string(d) + "\n}\nbind tkw -> struct\n"
+	var got TKw
+	out, log := &symio.Writer{}, &symio.Writer{}
+	err := bcl.Unmarshal([]byte(src), &got, bcl.OptOutput(out), bcl.OptLogger(log))
+	verif.Observe("err", err)
+	verif.Assert(err == nil, "unmarshal succeeds")
+	want := 40 + int(d[0]-'0')
+	vals := []int{got.Print, got.Not, got.Or, got.And, got.Var, got.Nil, got.Def, got.Eval, got.Bind, got.True, got.False, got.Struct, got.Slice}
+	for j, v := range vals {
+		if j == i {
+			verif.Assert(v == want, "the field is set")
+		} else {
+			verif.Assert(v == 0, "other fields untouched")
+		}
+	}
+	verif.Reach("checked")
+}
+
+type (
+	N16 struct{ V int }
+	N15 struct {
+		V   int
+		N16 N16
+	}
+	N14 struct {
+		V   int
+		N15 N15
+	}
+	N13 struct {
+		V   int
+		N14 N14
+	}
+	N12 struct {
+		V   int
+		N13 N13
+	}
+	N11 struct {
+		V   int
+		N12 N12
+	}
+	N10 struct {
+		V   int
+		N11 N11
+	}
+	N9 struct {
+		V   int
+		N10 N10
+	}
+	N8 struct {
+		V  int
+		N9 N9
+	}
+	N7 struct {
+		V  int
+		N8 N8
+	}
+	N6 struct {
+		V  int
+		N7 N7
+	}
+	N5 struct {
+		V  int
+		N6 N6
+	}
+	N4 struct {
+		V  int
+		N5 N5
+	}
+	N3 struct {
+		V  int
+		N4 N4
+	}
+	N2 struct {
+		V  int
+		N3 N3
+	}
+	N1 struct {
+		V  int
+		N2 N2
+	}
+)
+
+// C05_Deep: definitions nested up to the documented limit of 16 unmarshal
+// into a struct nested as deep; every level keeps its own value.
+func C05_Deep() {
+	depth := []int{2, 15, 16}[verif.Choice("depth", 3)]
+	d := verif.Bytes("digit", 1)
+	verif.Assume(d[0] >= '0' && d[0] <= '9')
+	src := ""
+	for i := 1; i <= depth; i++ {
+		src += "def n" + strconv.Itoa(i) + " {\n v = " + strconv.Itoa(i) + string(d) + "\n"
+	}
+	for i := 1; i <= depth; i++ {
+		src += "}\n"
+	}
+	src += "bind n1 -> struct\n"
+	var got N1
+	out, log := &symio.Writer{}, &symio.Writer{}
+	err := bcl.Unmarshal([]byte(src), &got, bcl.OptOutput(out), bcl.OptLogger(log))
+	verif.Observe("err", err)
+	verif.Assert(err == nil, "unmarshal succeeds")
+	x := int(d[0] - '0')
+	verif.Assert(got.V == 10+x && got.N2.V == 20+x, "outer levels reproduced")
+	if depth >= 15 {
+		l15 := got.N2.N3.N4.N5.N6.N7.N8.N9.N10.N11.N12.N13.N14.N15
+		verif.Assert(l15.V == 150+x, "level 15 reproduced")
+		if depth == 16 {
+			verif.Assert(l15.N16.V == 160+x, "level 16 reproduced")
+		} else {
+			verif.Assert(l15.N16.V == 0, "level 16 untouched")
+		}
+	}
 	verif.Reach("checked")
 }
